@@ -11,6 +11,7 @@ import z3
 
 Z3_TIMEOUT_MS = int(os.environ.get("PYVC_Z3_TIMEOUT_MS", "8000"))
 CVC5_TIMEOUT_MS = int(os.environ.get("PYVC_CVC5_TIMEOUT_MS", "10000"))
+Z3_SEED = 0     # non-zero: alternative random seed (used by the retry rounds)
 CVC5 = "/usr/bin/cvc5"
 
 
@@ -120,7 +121,9 @@ def _run_z3_cli(smt2, timeout_ms, want_model=False):
     t0 = time.time()
     try:
         p = subprocess.run([Z3_BIN, f"-T:{max(1, timeout_ms // 1000)}",
-                            f"-t:{timeout_ms}", "-smt2", path],
+                            f"-t:{timeout_ms}", "-smt2", path] +
+                           ([f"smt.random_seed={Z3_SEED}",
+                             f"sat.random_seed={Z3_SEED}"] if Z3_SEED else []),
                            capture_output=True, text=True,
                            timeout=timeout_ms / 1000 + 10)
         out = p.stdout.strip().splitlines()
